@@ -19,6 +19,12 @@ CLAIMED["C06"] = (
     "Trusted: the SStr model of Python str (differentially tested against CPython on every run), z3. Stubs: CIFColumn -> value holder, 3 numpy attributes in _serialize_looped -> shim (mask convention and real numpy path covered by cif_masks and by every replay). Outside: non-ASCII, values longer than the bound, more than one awkward cell per table, tables > 2x2. Two known findings (text-field content lines starting with ';' or with '_'/'loop_'/'data_') are listed in known_findings.json.",
     "DESIGN.md §4 C06")
 
+CLAIMED["C12"] = (
+    "SX symbolic execution of the transformed GenBank-location, FASTQ and GFF3 code over symbolic positions, scores and characters (z3 decides branches and the round-trip assertion; concrete replay on the unmodified modules); edit histories of GenBankFile/FastaFile by solver-driven case split",
+    "Bounded model checking: (1) GenBank location strings: format->parse identity for symbolic positions up to 10^5 (10^8) with every expressible defect/strand combination, 1-2 locations; (2) FASTQ: write->read identity with every score symbolic over the full valid range of both offsets (so '@' and '+' may start any line), wrapping 1-3/None, 2 entries, edits; (3) GFF3: one symbolic field (value/key/seqid/source, length <= 3 (4)) through percent quoting and the line parser; (4) all edit sequences of length 2 (3) on GenBankFile vs a list model incl. out-of-range indices; (5) FASTA objects/convert on a sequence menu.",
+    "Trusted: SStr/SInt models (validated against CPython/urllib on every run), z3. Stubs: numpy int8<->bytes score conversion -> +-offset arithmetic; file objects -> symbolic text buffer; urllib quote/unquote -> models. Outside: GenBank qualifier regex and ORIGIN formatting, GenPept, sequences/headers beyond the menus, non-ASCII. One known finding (GFF3 trailing blank in the last column).",
+    "DESIGN.md §4 C12")
+
 NOT_APPLICABLE = {
     "C15": "float results of numpy/LAPACK (linalg solves, trigonometry, argmin over float images): no integer/string logic in front of the C boundary that a solver could reason about; an abstraction over the reals would verify a model of numpy, not the code (DESIGN §6)",
     "C16": "optimality/properness come from np.linalg.svd/det (LAPACK behind FFI) on float32 data; no encodable source; z3 terms cannot pass astype(float32) (DESIGN §6)",
